@@ -75,6 +75,7 @@ type c13Account struct {
 
 func (a *c13Account) ID() uuid.UUID                { return uuid.NewSHA1(uuid.Nil, []byte(a.wallet+"/"+a.name)) }
 func (a *c13Account) Name() string                 { return a.name }
+func (a *c13Account) Wallet() e2wtypes.Wallet      { return &c13Wallet{name: a.wallet} } // as the dirk client's accounts do
 func (a *c13Account) PublicKey() e2types.PublicKey { return c13Pub(a.key) }
 func (a *c13Account) Lock(context.Context) error   { a.unlocked = false; return nil }
 func (a *c13Account) Unlock(_ context.Context, p []byte) error {
@@ -1040,6 +1041,20 @@ func c13DirkRefreshUnits(tier string) []hx.Unit {
 							for _, n := range allNames {
 								if before[n] && !after[n] {
 									st.bad("C13/refresh/dirk-accounts-wiped-on-"+why, "account %s was known and is no longer known %s: the last refresh returned no accounts", n, where)
+								}
+							}
+						}
+						// (b') ... and so does a refresh in which one of two wallets came back with nothing (its listing failed,
+						// which is what an empty listing from the remote signer means) while the other answered
+						if cfg == 1 && len(offered) > 0 {
+							if xOps[x] == "empty" && before["X/Val9"] && !after["X/Val9"] {
+								st.bad("C13/refresh/dirk-wallet-accounts-wiped-on-empty", "account X/Val9 was known and is no longer known %s: in the last refresh wallet X returned no accounts", where)
+							}
+							if accOps[a] == "empty" || accOps[a] == "error" {
+								for _, n := range []string{"W/Val1", "W/Val2", "W/Val3"} {
+									if before[n] && !after[n] {
+										st.bad("C13/refresh/dirk-wallet-accounts-wiped-on-"+accOps[a], "account %s was known and is no longer known %s: in the last refresh wallet W returned no accounts", n, where)
+									}
 								}
 							}
 						}
